@@ -192,7 +192,7 @@ theorem headerNumber_two (a b c d : Nat) : headerNumber [(a, b), (c, d)] = .ok c
 
 theorem initializeHunk_two (a b c d : Nat) (h1 : a + b ≤ usizeMax) (h2 : c + d ≤ usizeMax) :
     initializeHunk [(a, b), (c, d)] = .ok (⟨a, c⟩, (digits (max (a + b) (c + d))).length) := by
-  simp [initializeHunk, initUsesLast, maxSum, addUsize, h1, h2]
+  simp [initializeHunk, initUsesLast, maxSum, addUsize, addUsizeSat, h1, h2]
 
 theorem headerPath_eq (minusFile plusFile : String) :
     headerPath minusFile plusFile = if plusFile = "/dev/null" then minusFile else plusFile := by
